@@ -63,7 +63,7 @@ def gen_plan(seed, tier="quick"):
         plan["dest_group"] = r.randrange(16)
     x = r.random()
     if x < 0.3:
-        plan["fault"] = [r.randrange(0, 12), r.choice(["drop", "garble"])]
+        plan["fault"] = [r.randrange(0, 12), r.choice(["drop", "garble", "garble", "garble-same"])]
     elif x < 0.55 and seq == "types":
         plan["script"] = [r.choice(ALPHABET) for _ in range(r.randrange(1, 7))]
     if seed % 40 == 13:
